@@ -198,9 +198,36 @@ func decodeAddrs(hexes []string) [][]byte {
 func MakeFiller(p *Plan, src string) node.Filler {
 	c := p.Content
 	addrs := decodeAddrs(c.Addrs)
+	var lateAddrs [][]byte
+	for _, la := range c.Late {
+		lateAddrs = append(lateAddrs, decodeAddrs([]string{la.Addr})[0])
+	}
 	return func(b *node.Block) {
 		r := blockRNG(p.Seed, src, b.Num, b.Version)
 		var seeded []node.Tx
+		for k, la := range c.Late {
+			if b.Num != la.At || r.IntN(100) >= la.Pct {
+				continue
+			}
+			tx := node.Tx{Hash: node.Keccak([]byte("latetx"), b.Hash, []byte{byte(k)}), From: nonZeroBytes(r, 20), To: nonZeroBytes(r, 20), Input: []byte{1}, Value: big.NewInt(0), GasPrice: big.NewInt(1), EffGasPrice: big.NewInt(1), Status: 1}
+			vals := make([]model.AV, len(la.Event.Inputs))
+			for i, in := range la.Event.Inputs {
+				vals[i] = RandValue(r, in, nil)
+			}
+			vals[la.AddrInput] = model.AV{Type: "address", Bytes: lateAddrs[k]}
+			l := node.Log{Addr: nonZeroBytes(r, 20)}
+			l.Topics, l.Data = model.EncodeLog(la.Event, vals)
+			l.Tag = &model.LogTag{Sig: model.Signature(la.Event), NIdx: model.NumIndexed(la.Event), Values: vals}
+			tx.Logs = append(tx.Logs, l)
+			seeded = append(seeded, tx)
+		}
+		// the pool other events draw from: late addresses only above their block
+		pool := addrs
+		for k, la := range c.Late {
+			if b.Num > la.At {
+				pool = append(pool[:len(pool):len(pool)], lateAddrs[k])
+			}
+		}
 		for _, sd := range c.Seeded {
 			if b.Num < 1 || b.Num > sd.UpTo || b.Num != 1+uint64(len(seeded))%sd.UpTo && false {
 				continue
@@ -314,7 +341,22 @@ func MakeFiller(p *Plan, src string) node.Filler {
 				}
 				vals := make([]model.AV, len(es.Event.Inputs))
 				for i, in := range es.Event.Inputs {
-					use := addrs
+					use := pool
+					if len(c.Late) > 0 {
+						// an event that feeds a referenced table (it has a seeding
+						// or late rule) never carries a late address on its own:
+						// the only creation of a late address is its rule's
+						for _, la := range c.Late {
+							if la.Event.Name == es.Event.Name {
+								use = addrs
+							}
+						}
+						for _, sd := range c.Seeded {
+							if sd.Event.Name == es.Event.Name {
+								use = addrs
+							}
+						}
+					}
 					for _, sd := range c.Seeded {
 						if len(sd.Only) > 0 && sd.AddrInput == i && sd.Event.Name == es.Event.Name {
 							// a referenced table seeded with part of the pool keeps
@@ -329,6 +371,10 @@ func MakeFiller(p *Plan, src string) node.Filler {
 						}
 					}
 					vals[i] = RandValue(r, in, use)
+					if len(use) > len(addrs) && in.Type == "address" && r.IntN(100) < 35 {
+						// late addresses are looked up often, right above their block
+						vals[i] = model.AV{Type: "address", Bytes: use[len(addrs)+r.IntN(len(use)-len(addrs))]}
+					}
 					if c.MarkStrings && in.Type == "string" {
 						vals[i].Str = c15Marker + vals[i].Str
 					}
